@@ -103,3 +103,58 @@ func H_C14_decoder_arbitrary_bytes() {
 	verifReach("decoded")
 	verifAssert((m == nil) != (err == nil), "a-record-or-an-error")
 }
+
+// The reader the WAL really decodes from is autofile.GroupReader, whose Read fills the whole buffer or
+// returns what it has TOGETHER with an error (io.EOF at the end of the newest file) - unlike
+// bytes.Reader, which reports a short read without an error first. c14GroupLike follows that contract
+// (the real GroupReader.Read is shown to follow it by H_C14_group_reader_fills_the_buffer_or_reports).
+// A log cut at any byte: exactly the records that lie completely before the cut are replayed - a torn
+// last record is never returned, even when the bytes that did not reach the disk were zeros (the
+// decoder reads into a zeroed buffer, so a tolerated short read would make such a record "verify").
+type c14GroupLike struct {
+	data []byte
+	pos  int
+}
+
+func (r *c14GroupLike) Read(p []byte) (int, error) {
+	if len(p) == 0 {
+		return 0, io.ErrShortBuffer
+	}
+	n := copy(p, r.data[r.pos:])
+	r.pos += n
+	if n < len(p) {
+		return n, io.EOF
+	}
+	return n, nil
+}
+
+//verif:opt unwind=24 budget_s=900 split=9 max_split=40
+func H_C14_torn_last_record_is_never_replayed() {
+	n := 1 + verifCase(2)
+	log, payloads := c14Write(n)
+	cut := verifNondetInt()
+	verifAssume(cut >= 0 && cut <= len(log))
+	dec := NewWALDecoder(&c14GroupLike{data: log[:cut]})
+	got := 0
+	for k := 0; k < n+1; k++ {
+		m, err := dec.Decode()
+		if err != nil {
+			verifReach("ended")
+			break
+		}
+		verifAssert(got < n, "never-more-records-than-written")
+		if got < n {
+			verifAssert(bytes.Equal(m.Msg.(c14Msg).payload, payloads[got]), "decoded-record-is-the-one-written-at-that-position")
+		}
+		got++
+	}
+	complete := 0
+	off := 0
+	for i := 0; i < n; i++ {
+		off += 8 + len(payloads[i])
+		if off <= cut {
+			complete++
+		}
+	}
+	verifAssert(got == complete, "exactly-the-completely-written-records-are-replayed")
+}
